@@ -50,6 +50,9 @@ type DB struct {
 	FailReads int
 	// FailWrites > 0 makes that many following INSERTs fail before touching the table
 	FailWrites int
+	// FailFetch > 0 makes that many following SELECTs be accepted and then fail while the first row is fetched (the
+	// connection drops while the result set is read)
+	FailFetch int
 }
 
 var (
@@ -89,6 +92,9 @@ func (db *DB) Drop() {
 // Dump returns a copy of all rows as (id, created unix seconds, key_record).
 // SetFailReads arms read failures.
 func (db *DB) SetFailReads(n int) { db.mu.Lock(); db.FailReads = n; db.mu.Unlock() }
+
+// SetFailFetch arms failures of the row fetch of accepted SELECTs.
+func (db *DB) SetFailFetch(n int) { db.mu.Lock(); db.FailFetch = n; db.mu.Unlock() }
 
 // SetFailWrites arms write failures.
 func (db *DB) SetFailWrites(n int) { db.mu.Lock(); db.FailWrites = n; db.mu.Unlock() }
@@ -251,6 +257,11 @@ func (s *stmt) Query(args []driver.Value) (driver.Rows, error) {
 		s.db.mu.Unlock()
 		return nil, errors.New("sqlmini: injected read failure: connection reset")
 	}
+	failFetch := false
+	if s.db.FailFetch > 0 {
+		s.db.FailFetch--
+		failFetch = true
+	}
 	var hit []row
 	cand := s.db.rows
 	for _, c := range conds {
@@ -306,18 +317,22 @@ func (s *stmt) Query(args []driver.Value) (driver.Rows, error) {
 	if s.limit >= 0 && len(hit) > s.limit {
 		hit = hit[:s.limit]
 	}
-	return &rows{cols: s.cols, data: hit}, nil
+	return &rows{cols: s.cols, data: hit, failFetch: failFetch}, nil
 }
 
 type rows struct {
-	cols []string
-	data []row
-	i    int
+	cols      []string
+	data      []row
+	i         int
+	failFetch bool
 }
 
 func (r *rows) Columns() []string { return r.cols }
 func (r *rows) Close() error      { return nil }
 func (r *rows) Next(dest []driver.Value) error {
+	if r.failFetch {
+		return errors.New("sqlmini: injected fetch failure: connection lost while reading the result set")
+	}
 	if r.i >= len(r.data) {
 		return io.EOF
 	}
